@@ -72,7 +72,7 @@ NA = {
 PENDING = []
 
 CERT = (" PLUS the certificate engine (second engine, DESIGN 8.2): the real Solver::solve (dev and release builds, real dependencies) is run on every universe of an "
-        "enumerated bounded family (1000 per family quick, 20000 thorough; families plain/full/wide/hints/hard/deep/lazycon/soft/softx/reuse/async/snapshot, see DESIGN 8.2) and z3 decides over ALL selections of the solvables: ")
+        "enumerated bounded family (1000 per family quick, 10000 thorough; families plain/full/wide/hints/hard/deep/lazycon/soft/softx/reuse/async/snapshot, see DESIGN 8.2) and z3 decides over ALL selections of the solvables: ")
 CERT_NOTE = " Certificate engine: universes are enumerated by a seeded generator (not symbolic); Spec(U) is written from the text of C01; read-only dump accessors are attached to the scratch copy under cfg(verif_cert); z3 (python3-vt) trusted, `unknown` => inconclusive."
 CHECKS["C01"]["text"] += " K7 (second scratch copy, built against the dependency shims of DESIGN 8.1): the Requires clause with a populated candidate cache - 1-3 candidates grouped into 1-3 version sets, single and union keys, an unrelated second entry - visit_literals yields exactly (not parent) or candidates in cached order, and next_unwatched_literal obeys the K3 contract for every assignment, watch pair and watch index."
 CHECKS["C20"]["text"] += " Additionally (observation of real runs, not a solver query): on the universes of the certificate engine's `cache` family the public SolverCache query methods are called on the dev and release builds and compared with the universe (partition, sorted order with the favored candidate first, stable repeated answers without provider calls, availability = hinted or fetched)."
